@@ -11,6 +11,7 @@
    Premises of the simulation: 0 < CACHE, and the `Read` contract "a read delivers at most the
    length of the buffer it was given" (`RdBounded`): Repair.v does not model the panic that a
    violation of that contract causes in `std::io::Take` / in the slice index. *)
+From MLA Require Import Limit.
 From MLA Require Import Base Stream Blocks Writer Repair SrcTie2 RepairProofs3.
 From MLAGen Require Src2 Src3r.
 From Coq Require Import ZifyBool ZifyNat ZifyN Lia Permutation.
@@ -104,6 +105,7 @@ Qed.
 
 (* ---------- append_file_content with size = |src| (never a short source) ---------- *)
 Section Append.
+  Context {LIM : Limit}.
   Variable FNMAX : N.
   Variables T_START T_CONTENT T_EOA T_EOF : N.
   Variable H : bytes -> bytes.
@@ -149,6 +151,7 @@ Ltac lproj := unfold Src3r.set_src, Src3r.set_output, Src3r.set_error, Src3r.set
 
 (* ---------- the 'buf_fill and 'content loops ---------- *)
 Section Inner.
+  Context {LIM : Limit}.
   Variables FNMAX CACHE : N.
   Variables T_START T_CONTENT T_EOA T_EOF : N.
   Variable H : bytes -> bytes.
